@@ -241,3 +241,10 @@ package error
 //@ func NewErrorSLOT
 //@   modifies nothing
 //@   ensures result != nil && result.ptr != 0
+
+//@ method (*SyntaxError).Error
+//@   requires e != nil
+//@   modifies nothing
+//@ method (*IOError).Error
+//@   requires e != nil
+//@   modifies nothing
